@@ -177,6 +177,20 @@ def random_session(rnd, nlines):
     return keys
 
 
+def cap_sessions():
+    """History capacity boundary: n distinct stored lines, then the listing and references at both ends."""
+    out = []
+    for n in (19, 20, 21, 22, 45):
+        keys = []
+        for i in range(n):
+            keys += S("p " + "xyz"[i % 3] * (1 + i // 3)) + [ENTER]
+        for ref in ("history", "!0", "!19", "!20", "!-1", "!-19", "!-20", "!-21", "!!", "history"):
+            keys += S(ref) + [ENTER]
+        keys += [UP] * 25 + [ENTER] + [UP] * 3 + [DOWN] * 5 + [ENTER]
+        out.append(keys)
+    return out
+
+
 def script(via, chunks, echo=0, rst=0):
     return {"via": via, "echo": echo, "rst": rst, "chunks": chunks}
 
@@ -271,7 +285,7 @@ TOKS = [[97], [97, 13, 10], S("p x") + [13, 10], [IAC, NOP], [IAC, DO, 1], [IAC,
 
 def framing_scripts(rnd, quick):
     streams = [list(t) for t in TOKS] + [a + b for a in TOKS for b in TOKS]
-    more = 300 if quick else 6000
+    more = 300 if quick else 1500
     for _ in range(more):
         streams.append([x for _ in range(rnd.randint(3, 5)) for x in rnd.choice(TOKS)])
     if quick:
@@ -284,7 +298,7 @@ def framing_scripts(rnd, quick):
             if c > last:
                 segs.append(data[last:c])
                 last = c
-        out.append(script("framing", [{"k": [[] for _ in segs], "segs": segs}], rst=rnd.randint(0, 1)))
+        out.append(script("framing", [{"k": [[] for _ in segs], "segs": segs}], rst=int(rnd.random() < 0.7)))
     for d in streams:
         n = len(d)
         add(d, [])                                   # unsplit
@@ -427,8 +441,9 @@ def _run(ctx):
     # 3. code -> spec: long random editing sessions on all front ends, exit patterns
     nsess = 400 if quick else 4000
     sess = [key_script(random_session(rnd, rnd.randint(5, 70)), rnd, vias[i % 4]) for i in range(nsess)]
+    sess += [key_script(k, rnd, vias[i % 4]) for i, k in enumerate(cap_sessions())]
     sess += exit_scripts(rnd)
-    editor(ctx, exe, sess, "random", "%d random editing sessions + exit patterns" % len(sess))
+    editor(ctx, exe, sess, "random", "%d random editing sessions + capacity boundary + exit patterns" % len(sess))
     ctx.sample({"kind": "recorded session (first events)", "events": [json.loads(x) for x in vlib.read_lines(ctx.tmp("random.ndjson"), 1, 3)]})
 
     # 4. hostile input: arbitrary bytes / arguments in any segmentation on every front end
@@ -440,3 +455,22 @@ def _run(ctx):
     run_and_validate(ctx, exe, fr, "framing", "Trace_Telnet.tla", "Trace_Telnet.cfg",
                      "%d telnet token streams x segmentations (unsplit, byte by byte, two-part, random)" % len(fr))
     ctx.sample({"kind": "telnet stream as recorded", "event": json.loads(vlib.read_lines(ctx.tmp("framing.ndjson"), 1, 1)[0])})
+
+    ctx.assumptions = [
+        "each key's byte encoding is delivered unsplit (statement); Enter is CR LF, CR NUL, LF, or a lone CR that ends its segment / text run",
+        "which lines are stored is the reference's policy (spec/Terminal/LineEditor.tla): a line that ran to its end is stored (after a "
+        "history reference: the re-run text); `history`, a failed reference and a line with an empty ';' piece are not",
+        "an error report is recognised as the word 'error' (any case) in the bytes sent back, a prompt as '# ', the history listing as "
+        "lines '<index><2 blanks><text>CRLF'; echo bytes are not compared",
+        "after every input segment the loop is run until the connection is quiet, so a deferred session teardown has happened before the "
+        "next segment (pass counts themselves are not compared)",
+        "telnet streams are compared with the one-shot decoding only inside the well-formed language (no IAC IAC, sub-negotiations with at "
+        "least one data byte ended by IAC SE, command bytes 241..254); window sizes only when every NAWS carries exactly 4 bytes",
+    ]
+    ctx.uncovered = [
+        "argument quoting (' and \") and the built-ins ls/cd/pwd/tree/help (any node tree: here one tree with a cycle, a function and a deleted "
+        "node) are executed only under the no-Fault oracle; their output is not compared with a reference",
+        "history references whose argument is not an integer ('!1x', '!+1', '! 1') are outside the statement's quantifier: no-Fault only",
+        "'corrupt memory' is observed by ASan/UBSan (with the pool-poisoning hook) on the executed inputs, not proven for all inputs",
+        "the stdio front end (service/stdio.cpp) and Tab are not exercised",
+    ]
